@@ -942,25 +942,26 @@ func writeEvidence(c *Check, tier string, seed uint64, a *agg, wall float64, new
 		"seed":        int64(seed),
 		"level":       level,
 		"coverage": map[string]any{
-			"evaluations":            a.evals,
-			"distinct_nontrivial":    len(a.fps),
-			"rule":                   rule,
-			"samples":                samples,
-			"runs_per_hour":          int64(rph),
-			"sim_time_covered_s":     a.simS,
-			"events_executed":        a.steps,
-			"faults_fired":           a.faults,
-			"probes":                 a.probes,
-			"distinct_state_digests": len(a.states),
-			"components":             c.Components,
-			"schedule_regime":        c.Regime,
-			"known_findings_seen":    known,
-			"inconclusive":           a.inconcl,
-			"harness_panics":         len(a.panics),
-			"workers_hung":           a.hung,
-			"exhaustive":             false,
+			"evaluations":                        a.evals,
+			"distinct_nontrivial":                len(a.fps),
+			"rule":                               rule,
+			"samples":                            samples,
+			"runs_per_hour":                      int64(rph),
+			"sim_time_covered_s":                 a.simS,
+			"events_executed":                    a.steps,
+			"faults_fired":                       a.faults,
+			"probes":                             a.probes,
+			"distinct_state_digests":             len(a.states),
+			"components":                         c.Components,
+			"schedule_regime":                    c.Regime,
+			"known_findings_seen":                known,
+			"inconclusive":                       a.inconcl,
+			"harness_panics":                     len(a.panics),
+			"workers_hung":                       a.hung,
+			"process_crashes_in_code_under_test": a.crashes,
+			"exhaustive":                         false,
 		},
-		"assumptions": c.Assumptions,
+		"assumptions": append([]string{}, c.Assumptions...),
 		"wall_s":      wall,
 		"violations":  newViol,
 	}
